@@ -74,7 +74,9 @@ func (context *CHFContext) NewCHFUe(supi string) (*ChfUe, error) {
 	if ue, ok := context.ChfUeFindBySupi(supi); ok {
 		return ue, nil
 	}
-	if strings.HasPrefix(supi, "imsi-") {
+	// the SUPI also names the subscriber's CDR file (/tmp/<supi>.cdr): it has to be a single path element
+	// that a file name can hold
+	if strings.HasPrefix(supi, "imsi-") && !strings.ContainsAny(supi, "/\x00") && len(supi)+len(".cdr") <= 255 {
 		ue := ChfUe{}
 		ue.init()
 		ue.Supi = supi
